@@ -2360,14 +2360,17 @@ class Recipe:
                     step.instructions = f"Remove all {Substance.classes[what]} from '{dest_name}'."
                 self.results[dest_name] = dest.remove(what)
                 step.to.append(self.results[dest_name])
-                # substances_used is everything that is in step.to[0] but not in step.to[1]
-                step.substances_used = set.difference(step.to[0].get_substances(), step.to[1].get_substances())
-                if isinstance(dest, Container):
-                    step.trash = {substance: step.to[0].contents[substance] for substance in step.substances_used}
+                # trash is whatever left each container or well; substances_used is everything that was discarded
+                if isinstance(step.to[0], Container):
+                    before_and_after = [(step.to[0], step.to[1])]
                 else:  # Plate
-                    for well in step.to[0].wells.flatten():
-                        for substance in step.substances_used:
-                            step.trash[substance] = step.trash.get(substance, 0.) + well.contents.get(substance, 0.)
+                    before_and_after = zip(step.to[0].wells.flatten(), step.to[1].wells.flatten())
+                for before, after in before_and_after:
+                    for substance, amount in before.contents.items():
+                        removed = amount - after.contents.get(substance, 0.)
+                        if removed > 0:
+                            step.trash[substance] = step.trash.get(substance, 0.) + removed
+                step.substances_used = set(step.trash.keys())
             elif operator == 'dilute':
                 dest = step.to[0]
                 dest_name = dest.name
